@@ -6,7 +6,7 @@ from ..runner import Case, Property
 
 class C19(Property):
     id = "C19"
-    lean_module = "RosuModel.Props.C19"
+    lean_module = "RosuModel.Props.C19Curve"   # imports Props/C19Lipschitz.lean, Props/C19.lean (namespace Rosu.C19) and Props/C16Surplus.lean
     namespace = "Rosu.C19"
     design_ref = "5.19"
     level_text = (
@@ -19,7 +19,19 @@ class C19(Property):
         "interpolate_formula, position_first_of_idx_zero. Exact-arithmetic part (explicit hypotheses PosLaws, shown satisfiable on Rat by posLaws_rat): "
         "idxOfDist_hit / bsLoop_hit (on strictly increasing lengths std's probing sequence returns the index of an exact hit), interpolate_at_vertex, "
         "position_at_vertex, position_at_zero_first, position_at_one_last, progressToDist_zero_one - for curves whose lengths strictly increase by more "
-        "than EPSILON (otherwise the code deliberately returns the segment start). position_lipschitz stays a statement (position_lipschitz_statement). Model tied to the code bit-for-bit "
+        "than EPSILON (otherwise the code deliberately returns the segment start). "
+        "position_lipschitz (Props/C19Lipschitz.lean) is PROVED in exact arithmetic about positionAt/progressToDist/idxOfDist/interpolateVertices themselves: for EVERY two progress "
+        "values q, r (inside or outside [0,1], clamping included) nrm(position_at(r) - position_at(q)) <= |r - q| * dist, under explicit hypotheses: ExactArith (Lemmas/ExactArith.lean: "
+        "the Scalar operations are those of a linearly ordered field through an embedding; satisfiable on Rat and on the reals), NormLaws nrm (the plane norm is ANY function with the "
+        "triangle inequality and absolute homogeneity: L1 and sup norms, exact on Rat x Rat - normLaws_l1, normLaws_sup - and the Euclidean norm on the reals - normLaws_euclid), and the curve "
+        "invariants path.length = lengths.length, lengths[0] = 0, StrictSorted lengths, NonDegenerate lengths (consecutive lengths more than EPSILON apart) and ChordBound (each segment's booked "
+        "length is AT LEAST its chord: nrm(path[i+1]-path[i]) <= len[i+1]-len[i]). It rests on idxOfDist_spec (on strictly increasing lengths std's probing sequence returns the number of "
+        "lengths below d, hit or miss), interpolate_eq_polyAt, and the pure ordered-field lemma poly_lipschitz (Lemmas/PolyLipschitz.lean). position_lipschitz_real: the full statement with the "
+        "model's own Pos::distance (sqrt = Real.sqrt) holds over the reals (position_lipschitz_full_statement = the old position_lipschitz_statement plus the three invariants it omitted). "
+        "Props/C19Curve.lean supplies the chord hypothesis from C16: natLens_chord (booked length >= chord in the natural lengths, equal for every segment but the first, given optimized_len >= 0 = "
+        "C16.calculatePath_optLen_nonneg) and natural_curve_lipschitz_real: over the reals position_at is 1-Lipschitz on EVERY curve Curve::new builds without a requested length (any mode, control "
+        "points, fuel, buffers) whose lengths strictly increase by more than EPSILON. "
+        "Model tied to the code bit-for-bit "
         "(positions, distances, indices, also for NaN / unsorted lengths).")
     technique = "Lean 4 proof (generic arithmetic, structural) + bit-exact differential correspondence + independent oracle"
     required_theorems = ["progress_clamped", "progress_below_clamped", "progress_above_clamped", "position_clamped",
@@ -27,10 +39,15 @@ class C19(Property):
                          "interpolate_total", "positionAt_total", "bsLoop_inv", "bs_probe_in_range", "idxOfDist_le", "bsLoop_fuel",
                          "interpolate_degenerate", "interpolate_formula", "position_first_of_idx_zero",
                          "bsLoop_hit", "idxOfDist_hit", "interpolate_at_vertex", "position_at_vertex", "progressToDist_zero_one",
-                         "position_at_zero_first", "position_at_one_last", "posLaws_rat"]
+                         "position_at_zero_first", "position_at_one_last", "posLaws_rat",
+                         # Props/C19Lipschitz.lean
+                         "cmpLen_gt_iff", "bsLoop_spec", "idxOfDist_spec", "interpolate_eq_polyAt", "clamp01_lipschitz",
+                         "position_lipschitz", "position_lipschitz_ordered", "normLaws_euclid", "position_lipschitz_real",
+                         # Props/C19Curve.lean
+                         "natLens_chord", "natural_curve_lipschitz_real"]
     partial_theorems = {
         "position_at_zero_first / position_at_one_last / position_at_vertex": "proved in exact arithmetic only (PosLaws: lt irreflexive/asymmetric, 0*x=0, 1*x=x, (b-a)/(b-a)=1 for a<b, x*1=x, a+(b-a)=b; instantiated on Rat) and for strictly increasing lengths with consecutive differences above EPSILON; with zero-length segments the position is the start of a coincident run (tested), in IEEE the equalities hold within 1e-6*scale (tested)",
-        "position_lipschitz": "NOT proved: position_lipschitz_statement (needs the triangle inequality of the plane and monotone interpolation); tested by the oracle with float slack",
+        "position_lipschitz": "proved in exact arithmetic only (ExactArith + NormLaws + the curve invariants listed in level_text; instantiated on Rat with the L1 norm on a concrete 3-vertex curve and on the reals with the Euclidean norm = the model's Pos::distance). NOT proved for IEEE floats (tested by the oracle with float slack 4e-6*scale + 1e-5). The hypotheses are necessary: (a) without NonDegenerate the bound is false in exact arithmetic whenever EPSILON > 0, because interpolate_vertices snaps a segment of booked length <= EPSILON to its start (a jump of up to EPSILON; argued, the counterexample is not machine-checked: path (0,0),(e,0),(1+e,0), lengths 0,e,1+e with e = EPSILON - distance e is answered with (0,0), distance e+1/2 with (e+1/2,0)) - so the old position_lipschitz_statement, kept in Props/C19.lean, is not provable as written; (b) ChordBound is an inequality: the first segment of an osu!-mode Catmull path books optimized_len on top of its chord (F12) and satisfies it; it fails only when the surplus is negative by IEEE rounding (~ -5e-7 observed) and for the NaN end point of F11; that Curve::new establishes ChordBound is proved for curves without a requested length (natLens_chord + C16 surplus_nonneg; natural_curve_lipschitz_real) and NOT for the re-projected last segment of a length-adjusted curve; StrictSorted/NonDegenerate (no zero-length or sub-EPSILON segment) stay hypotheses - they genuinely fail for duplicate vertices, where the code snaps to the start of the coincident run",
     }
     trusted_base = [
         "Lean 4.33.0 kernel",
